@@ -226,6 +226,15 @@ def insertElems (h : Heap) (p : Nat) : Nat → List Nat → Except Err (Heap × 
       | none => .error .valueError
       | some i => insertElems h1 p (i + 1) xs
 
+/-- the slot arithmetic of `Tag.insert` BEFORE the repair (`position += 1` after every argument); kept only for
+    the witness theorem `old_insert_not_contiguous` in Props/C02.lean -/
+def insertElemsOld (h : Heap) (p : Nat) : Nat → List Nat → Except Err Heap
+  | _, [] => .ok h
+  | position, x :: xs =>
+    match insertCore h p position x with
+    | .error e => .error e
+    | .ok h1 => insertElemsOld h1 p (position + 1) xs
+
 /-- `Tag.insert(position, *new_children)` (element.py:1916-1933, with the slot arithmetic "next slot = index of
     the last inserted element + 1"); a `BeautifulSoup` argument stands for its children (element.py:1943-1948);
     returns heap, running position and the inserted elements -/
